@@ -254,14 +254,13 @@ func (l *commitLog) AppendMessageSet(ms []byte) ([]int64, error) {
 }
 
 func (l *commitLog) append(segment *segment, ms []byte, entries []*entry) ([]int64, error) {
-	if err := segment.WriteMessageSet(ms, entries); err != nil {
-		return nil, err
-	}
-	crashPoint("append:index-written")
 	var (
 		lastLeaderEpoch = l.leaderEpochCache.LastLeaderEpoch()
 		offsets         = make([]int64, len(entries))
 	)
+	// Assign epoch offsets before writing the messages: should the process
+	// die in between, the entries past the log end are removed when the log
+	// is reopened, whereas messages without their epoch would stay.
 	for i, entry := range entries {
 		// Check if message is in a new leader epoch.
 		if entry.LeaderEpoch > lastLeaderEpoch {
@@ -273,6 +272,10 @@ func (l *commitLog) append(segment *segment, ms []byte, entries []*entry) ([]int
 		}
 		offsets[i] = entry.Offset
 	}
+	if err := segment.WriteMessageSet(ms, entries); err != nil {
+		return nil, err
+	}
+	crashPoint("append:index-written")
 	return offsets, nil
 }
 
